@@ -35,8 +35,8 @@ def run(chk):
     try:
         total = 0
         for name, maxvar, stride in progcheck.dev_filter(plans(chk.tier)):
-            kw = dict(progcheck.CORPORA[name])
-            keep = kw.pop("keep", None)
+            kw, flags = progcheck.corpus_kwargs(name)
+            keep = flags["keep"]
             behs, res = replay.generate_programs(rundir=rd, timeout=3000, **kw)
             chk.add_tlc(res, f"gen:{name}")
             behs = [b for b in behs if any(a["a"] in replay.INPLACE for a in b["prog"]) and (keep is None or keep(b))]
